@@ -182,12 +182,17 @@ func ValidateCounterpartyID(id string, protocol ProtocolID) error {
 	return nil
 }
 
-// isInteger returns true if the string can be converted to
-// an integer, false otherwise.
+// isInteger returns true if the string is the canonical decimal
+// representation of a 32 bits unsigned integer, false otherwise.
+//
+// NOTE: CCTP and Hyperlane identify a counterparty with a uint32 domain, and the forwarding
+// attributes format it in decimal to match and record the transfers. Other spellings of
+// an integer ("05", "+5", "-1") or bigger values would be accepted here but never
+// match the counterparty ID of a transfer.
 func isInteger(s string) bool {
-	_, err := strconv.Atoi(s)
+	v, err := strconv.ParseUint(s, 10, 32)
 
-	return err == nil
+	return err == nil && strconv.FormatUint(v, 10) == s
 }
 
 // ID generates an internal identifier for a tuple (bridge protocol, chain).
